@@ -418,6 +418,28 @@ fn scenario(name: &str, n: i64) {
             let r = a.union(&b);
             verify_large(name, &r, &[&a, &b], &[], 8.0 * n as f64 + 0.5, n as usize + 1, n as usize);
         }
+        "nest" => {
+            // n concentric square frames (frame k lies in the hole of frame k + 1) united with a small square in the
+            // innermost hole: ring-in-hole nesting as deep as n
+            let sqr = |h: f64| {
+                LineString(vec![
+                    Coord { x: -h, y: -h },
+                    Coord { x: h, y: -h },
+                    Coord { x: h, y: h },
+                    Coord { x: -h, y: h },
+                    Coord { x: -h, y: -h },
+                ])
+            };
+            let a = MultiPolygon(
+                (1..=n)
+                    .map(|k| Polygon::new(sqr(2.0 * k as f64 + 1.0), vec![sqr(2.0 * k as f64)]))
+                    .collect(),
+            );
+            let b = MultiPolygon(vec![Polygon::new(sqr(1.0), vec![])]);
+            let r = a.union(&b);
+            let nf = n as f64;
+            verify_large(name, &r, &[&a, &b], &[], 4.0 + 8.0 * nf * (nf + 1.0) + 4.0 * nf, n as usize + 1, n as usize);
+        }
         "saw" => {
             // one long edge (the top side of a flat rectangle) crossed 2n times by a zigzag: it is divided again
             // and again, so whatever links the pieces of one edge forms a chain as long as the number of
